@@ -22,7 +22,7 @@ PROPS = {
     },
     "C05": {
         "level": "exploration",
-        "budget": {"quick": 30, "thorough": 500},
+        "budget": {"quick": 60, "thorough": 500},
         "min_evaluations": 20000,
         "min_counters": {"map_exact": 5000, "map_permuted": 2000, "mistyped_rejected": 10000, "map_extra_names": 5000, "map_missing_name": 3000, "events_witness": 20000},
         "rule": ("Programs with 0..8 witnesses of random types (some sharing a type), each bound and (80 %) probed down to "
@@ -41,8 +41,7 @@ PROPS = {
         "budget": {"quick": 45, "thorough": 900},
         "min_evaluations": 1500,
         "min_counters": {"fold_applications_observed": 20000, "folds_finishing": 400, "folds_panicking": 150, "source_literal": 100, "source_witness": 100, "source_computed": 100},
-        "rule": ("For every bound N in {2,4,...,256} (thorough: 512) and every length 0 <= k < N for N <= 64 (thorough: "
-                 "all N), block-boundary lengths for larger N: programs folding an order-sensitive step function "
+        "rule": ("For every bound N in {2,4,...,256} (thorough: 512) and every length 0 <= k < N: programs folding an order-sensitive step function "
                  "(acc*31 + key(element), visible in the log through multiply_64/add_64 events per application) over a "
                  "list that is a literal, a witness or computed by a function; element types u8, u1, (u8,bool), (), u256; "
                  "one third of the programs panic at a chosen element. Judged: verdict and complete event log against the "
@@ -76,7 +75,7 @@ PROPS = {
                  "array and nested patterns with up to three leaves and `_` / let a = b / let b = a / call of a function "
                  "whose parameters are (b, a)) + nested-block let, bare block, match Some, match Left/Right whose blocks "
                  "hold at most one leaf statement (59 statements). ALL sequences of length <= 3 are enumerated (208 920 "
-                 "programs; the quick tier runs lengths <= 2 completely and a seed-chosen 1/40 slice of length 3), plus "
+                 "programs; the quick tier runs lengths <= 2 completely and a seed-chosen 1/12 slice of length 3), plus "
                  "random structures of depth 2-4. Every binding site binds a distinct constant; after every statement, in "
                  "every block, arm and function body, each bound name is probed on the real machine against the constant "
                  "the reference resolver predicts - as a bare variable and, when both names are bound, also inside a tuple, "
